@@ -118,7 +118,7 @@ def run(chk):
     nstates = chk.scale(6, 24)
     for i in range(nprog):
         placement = rng.choice(["zp", "zp", "mixed", "abs"])
-        p = gen_c.program(rng, placement=placement, shorts=rng.random() < 0.25, inline_rate=0.0, gotos=False)
+        p = gen_c.program(rng, placement=placement, shorts=rng.random() < 0.4, inline_rate=0.0, gotos=False)
         src = p.text
         try:
             gen_c.program_tokens(p)
